@@ -20,6 +20,8 @@ CLAIMED = {
          "7.C14", "Coq proof (round trip / rejection lemmas) + extracted-model correspondence"),
  "C10": ("Coq theorems: Version equality is an equivalence, equal versions have identical keys (hence equal hashes) and are interchangeable in every comparison; Specifier equality/hash are functions of the canonical key and equal specifiers match the same candidates under every pre-release setting (through the denotation of the canonical text); for all six types the laws are also evaluated directly on real objects built from spelling/zero/case/order/normalisation variants; the SpecifierSet/Marker/Requirement/Tag theorems live with their own models",
          "7.C10", "Coq proof (key functions, congruence) + direct law oracles on the implementation + model correspondence of ==" ),
+ "C11": ("Coq theorems: on the modelled paths the failure points of the real code are explicit results (Escaped / FCrash / undefined int()) and are proved unreachable (Specifier.contains never escapes for accepted specifiers, every int() in Version is applied to digits, canonicalize_version total, filename parsers give a value or the documented error); every public entry point is additionally called on valid, mutated, arbitrary-Unicode and byte inputs and the class of any escaping exception is checked (testing, not proof, for the runtime part)",
+         "7.C11", "Coq proof of unreachability of modelled failure points + exception-class law oracle on malformed inputs"),
 }
 NA_REASON = "check not built yet in this revision (planned, see DESIGN.md section 7); nothing is claimed"
 checks, na = [], []
